@@ -288,3 +288,35 @@ func VerifC04_EmptyPath() {
 	verif.Observe("failed", err != nil)
 	verif.Assert("an_empty_path_removes_nothing", vSameEntries(before, lfs.snapshot()) && len(lfs.mutations()) == 0)
 }
+
+// VerifC04_ExcludedEntriesSurvive: entries matching an exclusion pattern
+// survive a removal together with their ancestors, whatever else is in the
+// pattern list (top-level entries; the deeper case is the subject of C08).
+func VerifC04_ExcludedEntriesSurvive() {
+	lfs := newLinkFs()
+	_ = lfs.MkdirAll("/s/t/b", 0o755)
+	_ = lfs.MkdirAll("/s/o", 0o755)
+	for _, p := range []string{"/s/t/a", "/s/t/b/x", "/s/t/c", "/s/o/y"} {
+		f, _ := lfs.Create(p)
+		_, _ = f.WriteString("in")
+		_ = f.Close()
+	}
+	fs := NewVirtualFileSystem(lfs, InMemoryFS, IdentityPathConverterFunc)
+	sets := [][]string{{"a"}, {"", "a"}, {"zz", "", "a"}, {"a", ""}, {" ", "a"}, {"c", "a"}}
+	pats := sets[verif.Choice("patterns", len(sets))]
+	before := vOutsideOf(lfs.snapshot())
+	ctx := context.Background()
+	var err error
+	if verif.Bool("cleanOnly") {
+		err = fs.CleanDirWithContextAndExclusionPatterns(ctx, "/s/t", pats...)
+	} else {
+		err = fs.RemoveWithContextAndExclusionPatterns(ctx, "/s/t", pats...)
+	}
+	verif.Observe("failed", err != nil)
+	verif.Assert("excluded_entry_survives", lfs.nodes["/s/t/a"] != nil)
+	verif.Assert("its_ancestors_survive", lfs.nodes["/s/t"] != nil)
+	verif.Assert("nothing_outside_the_tree_is_touched", vSameEntries(before, vOutsideOf(lfs.snapshot())))
+	if err == nil {
+		verif.Assert("unprotected_entries_are_gone", lfs.nodes["/s/t/b"] == nil && lfs.nodes["/s/t/b/x"] == nil)
+	}
+}
